@@ -159,6 +159,20 @@ def run(ctx):
     for i in range(ctx.pick(24, 2000)):
         programs, tids = gen_programs(rng, pairs_everywhere=(i % 2 == 0))
         check_set(res, ctx, rng, programs, tids)
+    # many threads at once (tables that are capped, flushed in batches or keyed by a hash show only then)
+    for _ in range(ctx.pick(3, 40)):
+        n = rng.choice((17, 18, 33, 40, 70))
+        programs, tids = [], []
+        for t in range(n):
+            tid = 100 + t
+            keyspace = {'tid': tid, 'pid': 1000 + 10 * t, 'sid': 100000 + 100 * t}
+            prog = H.scenario(rng, keyspace, kinds=('newthread', 'exec'))
+            if rng.random() < 0.3:
+                prog = prog + H.scenario(rng, keyspace, kinds=('syscall', 'threadname'), private_keys=True)
+            programs.append(prog[:8])
+            tids.append(tid)
+        check_set(res, ctx, rng, programs, tids)
+        res.count('many_thread_sets')
     # the canonical adversarial case, by construction: DATA(A) DATA(B) STRING(A) STRING(B) for both pair kinds
     for maker in (lambda t, pid, n: H.newthread_pair(t * 1000 + 1, pid, n), lambda t, pid, n: H.exec_pair(pid, n)):
         for q in (H.NONE, H.ALL):
@@ -176,6 +190,7 @@ def run(ctx):
     res.require('schedules_executed', 100)
     res.require('schedules_splitting_a_pair', 10)
     res.require('program_sets_exhaustively_scheduled', 1)
+    res.require('many_thread_sets', 1)
     return res
 
 
